@@ -76,6 +76,19 @@ type Env struct {
 	M     *model.Store
 	Snaps []*Snap
 	Pins  []*Pinned
+	// Fault is the fault armed for the operation in progress (C07); FaultOp
+	// names the operation it fired in.
+	Fault              *vfile.Fault
+	FaultOp            string
+	nestedEvictCounted bool
+	// NoRootsStop is set when a re-open legitimately failed because no Flush
+	// ever completed and the file only holds the debris of a failed one.
+	NoRootsStop bool
+	// DstFault is armed on the destination file of the next CopyTo.
+	DstFault     *vfile.Fault
+	LastDstCalls int
+	// OpenedDespiteFault is the store NewStore returned although the file failed during the open.
+	OpenedDespiteFault *gkvlite.Store
 	// Stale holds the handles (snapshot collections) whose version has been
 	// superseded by a later mutation of the original; StaleNames the same for
 	// suspended visits.  Used to attribute item loads (C15 known finding).
@@ -325,6 +338,22 @@ func (e *Env) open() {
 	if e.Failed() {
 		return
 	}
+	if e.FaultFired() {
+		k := e.Fault.FiredKind.String()
+		e.Stats["fault.fired/op=Open/"+k]++
+		e.FaultOp = "Open"
+		if err == nil {
+			// success although a read on its path failed: it must not show wrong or older data
+			e.OpenedDespiteFault = s
+		}
+		return
+	}
+	if err != nil && !e.Cfg.MemOnly && len(e.M.Flushes) == 0 && e.F.Size() > 0 && e.F.DurableEnd() == 0 {
+		// documented alternative: no Flush ever completed, the file holds only debris
+		e.NoRootsStop = true
+		e.Stats["open.no-roots-error-accepted"]++
+		return
+	}
 	if err != nil || s == nil {
 		e.Failf("open/unexpected-error", "NewStore failed on a file the store itself wrote: %v", err)
 		return
@@ -359,6 +388,8 @@ func (e *Env) Reopen(closeOld bool) {
 		e.closedStores = append(e.closedStores, old) // closed at end of life for the ref-count balance
 	}
 	e.M.Reopen()
+	e.S = nil
+	e.H = map[string]*gkvlite.Collection{}
 	e.open()
 	e.Stats["op.Reopen"]++
 }
@@ -733,9 +764,17 @@ func OpenCopyAndCompare(e *Env, b []byte, st *model.State, label string) {
 		return
 	}
 	f2 := vfile.FromBytes("copy", b)
-	e2 := &Env{Cfg: Config{CB: e.Cfg.CB &^ (CBRef | CBAlloc)}, Name: "reopen-copy", F: f2, Cmps: e.Cmps, M: &model.Store{Live: st.Clone(), Flushes: []model.Flushed{{State: st, FileLen: int64(len(b))}}},
+	fl := []model.Flushed{{State: st, FileLen: int64(len(b))}}
+	if len(e.M.Flushes) == 0 && len(st.Colls) == 0 {
+		fl = nil // nothing was ever flushed
+	}
+	e2 := &Env{Cfg: Config{CB: e.Cfg.CB &^ (CBRef | CBAlloc)}, Name: "reopen-copy", F: f2, Cmps: e.Cmps, M: &model.Store{Live: st.Clone(), Flushes: fl},
 		Stats: map[string]int64{}, H: map[string]*gkvlite.Collection{}}
 	e2.open()
+	if e2.NoRootsStop {
+		e.Stats["reopen-compares"]++
+		return
+	}
 	if !e2.Failed() {
 		e2.ReadbackAll(RTotals | RAscVal | RMinMax)
 	}
@@ -804,4 +843,11 @@ func (e *Env) CBCounts() map[string]int64 {
 		}
 	}
 	return res
+}
+
+// RetryOpen opens the file again after a failed open.
+func (e *Env) RetryOpen() {
+	if e.S == nil && !e.Failed() {
+		e.open()
+	}
 }
